@@ -33,6 +33,7 @@ def run_one(pid, seed, idx, tier, replay=None, keep_choices=False):
     w = W.World(ch, prop=pid, tier=tier)
     w.run_index = idx
     status, err = 'ok', None
+    t_wall = _real_perf()
     seams.begin_run(w)
     try:
         try:
@@ -51,7 +52,7 @@ def run_one(pid, seed, idx, tier, replay=None, keep_choices=False):
            'nontrivial': bool(getattr(w, 'nontrivial', False)),
            'faults': dict(w.faults), 'probes': dict(w.probes), 'simtime': w.now,
            'nev': len(w.events), 'nchoices': len(ch.record), 'fault_free': w.fault_free,
-           'overrun': ch.overrun}
+           'overrun': ch.overrun, 'wall': round(_real_perf() - t_wall, 3)}
     if keep_choices or w.violations or status != 'ok':
         res['choices'] = ch.values()
         res['labels'] = [l for l, _ in ch.record]
